@@ -109,7 +109,7 @@ M('C04', 'remove-ascending', TRACK, "        for i in range(len(tab_idx) - 1, -1
 M('C04', 'extract-exclusive', TRACK, "        for k in range(id_ini, id_fin + 1):\n            track.addObs(self.__POINTS[k])", "        for k in range(id_ini, id_fin):\n            track.addObs(self.__POINTS[k])", None)
 M('C04', 'gt-mutates-source', TRACK, "            output.__transmitAF(self)\n            return output\n\n    # ------------------------------------------------------------\n    # [<] Removes last n points of track or time comp",
   "            output.__transmitAF(self)\n            self.__POINTS = self.__POINTS[arg:]\n            return output\n\n    # ------------------------------------------------------------\n    # [<] Removes last n points of track or time comp", 'C04.F')
-M('C04', 'transmit-alias', TRACK, "        self.__analyticalFeaturesDico = track.__analyticalFeaturesDico.copy()", "        self.__analyticalFeaturesDico = track.__analyticalFeaturesDico", 'C04.F')
+M('C04', 'transmit-alias', TRACK, "        self.__analyticalFeaturesDico = track.__analyticalFeaturesDico.copy()", "        self.__analyticalFeaturesDico = track.__analyticalFeaturesDico", 'C04.G')
 M('C04', 'insertion-floor-guard', TRACK, "        while self.getObs(id).timestamp > timestamp:\n            if id == 0:\n                break\n            id -= 1", "        while self.getObs(id).timestamp > timestamp:\n            id -= 1", 'C04.G')
 T('C04', 'twin-lt-temp', TRACK, "            output = Track(\n                self.__POINTS[0 : (self.size() - arg)], self.uid, self.tid, self.base\n            )",
   "            last = self.size() - arg\n            output = Track(\n                self.__POINTS[0:last], self.uid, self.tid, self.base\n            )")
@@ -129,17 +129,17 @@ T('C05', 'twin-temporal-denominator', INT, "        wbwd = (tfwd - t) / (tfwd - 
   "        span = tfwd - tbwd\n        wfwd = (t - tbwd) / span\n        wbwd = 1 - wfwd\n\n        X = wfwd * pt_fwd.position.getX() + wbwd * pt_bwd.position.getX()\n        Y = wbwd * pt_bwd.position.getY() + wfwd * pt_fwd.position.getY()\n        Z = wbwd * pt_bwd.position.getZ() + wfwd * pt_fwd.position.getZ()\n\n        pi = Obs(ENUCoords(X, Y, Z), ObsTime.readUnixTime(t))")
 
 # ---------------------------------------------------------------- C06 / C07
-M('C06', 'relax-drop-weight', NET, "                    fils.poids = pere.poids + e.weight + heuristic", "                    fils.poids = pere.poids + heuristic", 'C06.R')
-M('C06', 'cut-nonstrict', NET, "            if (pere.poids > cut) or (pere.id == target):", "            if (pere.poids >= cut) or (pere.id == target):", 'C06.C')
-M('C06', 'orientation-strict', NET, "        if edge.orientation >= 0:\n            self.NEXT_EDGES[source.id].append(edge.id)", "        if edge.orientation > 0:\n            self.NEXT_EDGES[source.id].append(edge.id)", 'C06.O')
-M('C06', 'reset-sentinel-zero', NET, "            elem[1].poids = -1\n", "            elem[1].poids = 0\n", 'C06.N')
-M('C06', 'queue-key-stale', NET, "                    fil.__setitem__(fils, fils.poids)", "                    fil.__setitem__(fils, pere.poids)", 'C06.R')
+M('C06', 'relax-drop-weight', NET, "                    fils.poids = pere.poids + e.weight + heuristic", "                    fils.poids = pere.poids + heuristic", 'C06.G')
+M('C06', 'cut-nonstrict', NET, "            if (pere.poids > cut) or (pere.id == target):", "            if (pere.poids >= cut) or (pere.id == target):", 'C06.G')
+M('C06', 'orientation-strict', NET, "        if edge.orientation >= 0:\n            self.NEXT_EDGES[source.id].append(edge.id)", "        if edge.orientation > 0:\n            self.NEXT_EDGES[source.id].append(edge.id)", 'C06.G')
+M('C06', 'reset-sentinel-zero', NET, "            elem[1].poids = -1\n", "            elem[1].poids = 0\n", 'C06.G')
+M('C06', 'queue-key-stale', NET, "                    fil.__setitem__(fils, fils.poids)", "                    fil.__setitem__(fils, pere.poids)", 'C06.G')
 M('C06', 'pd-stale-test', UT, "        v, k = heappop(heap)\n        while k not in self or self[k] != v:\n            v, k = heappop(heap)\n        del self[k]", "        v, k = heappop(heap)\n        while k not in self:\n            v, k = heappop(heap)\n        del self[k]", 'C06.Q')
 T('C06', 'twin-relax-temp', NET, "                    fils.poids = pere.poids + e.weight + heuristic\n                    fils.antecedent = pere\n                    fils.antecedent_edge = e.id\n                    fil.__setitem__(fils, fils.poids)",
   "                    candidate = pere.poids + e.weight + heuristic\n                    fils.antecedent = pere\n                    fils.antecedent_edge = e.id\n                    fils.poids = candidate\n                    fil[fils] = candidate")
-M('C07', 'reverse-condition', NET, "            if e.source != node:\n                edge_geom = edge_geom.reverse()", "            if e.source == node:\n                edge_geom = edge_geom.reverse()", 'C07.G')
-M('C07', 'keep-junction', NET, "            track = track + (edge_geom > 1)", "            track = track + (edge_geom > 0)", 'C07.G')
-M('C07', 'antecedent-edge-missing', NET, "                    fils.antecedent = pere\n                    fils.antecedent_edge = e.id\n", "                    fils.antecedent = pere\n", 'C07.N')
+M('C07', 'reverse-condition', NET, "            if e.source != node:\n                edge_geom = edge_geom.reverse()", "            if e.source == node:\n                edge_geom = edge_geom.reverse()", 'C07.H')
+M('C07', 'keep-junction', NET, "            track = track + (edge_geom > 1)", "            track = track + (edge_geom > 0)", 'C07.H')
+M('C07', 'antecedent-edge-missing', NET, "                    fils.antecedent = pere\n                    fils.antecedent_edge = e.id\n", "                    fils.antecedent = pere\n", 'C07.H')
 T('C07', 'twin-backward-rename', NET, "            e = self.EDGES[node.antecedent_edge]\n            edge_geom = e.geom.copy()\n            if e.source != node:\n                edge_geom = edge_geom.reverse()\n            track = track + (edge_geom > 1)",
   "            edge = self.EDGES[node.antecedent_edge]\n            piece = edge.geom.copy()\n            if not (edge.source == node):\n                piece = piece.reverse()\n            track = track + (piece > 1)")
 
